@@ -61,8 +61,8 @@ RULE_SERVER = ("server: scripted connection life-cycles against a real MemcacheT
                "with the Lean model of the accept loop and checked against the limit directly.")
 
 PROPS.update({
-    "C03": {"suites": {"quick": [("sched", {"profile": "C03", "count": 150, "per_case": 60}), ("stress", {"count": 1500})],
-                       "thorough": [("sched", {"profile": "C03", "count": 1500, "per_case": 2000}), ("stress", {"count": 30000})]}, "design": "6/C03"},
+    "C03": {"suites": {"quick": [("sched", {"profile": "C03", "count": 150, "per_case": 60}), ("stress", {"count": 1500}), ("sched", {"profile": "C03deep", "count": 60, "per_case": 40})],
+                       "thorough": [("sched", {"profile": "C03", "count": 1500, "per_case": 2000}), ("stress", {"count": 30000}), ("sched", {"profile": "C03deep", "count": 1500, "per_case": 400})]}, "design": "6/C03"},
     "C04": {"suites": {"quick": [("sched", {"profile": "C04", "count": 150, "per_case": 60}), ("stress", {"count": 1000})],
                        "thorough": [("sched", {"profile": "C04", "count": 1500, "per_case": 2000}), ("stress", {"count": 20000})]}, "design": "6/C04"},
     "C16": {"suites": {"quick": [("sched", {"profile": "C04", "count": 60, "per_case": 40}), ("stress", {"count": 600}), ("seq", {"profile": "C05", "count": 600}), ("policy", {"profile": "C14", "count": 200}), ("sched", {"profile": "C14deep", "count": 30, "per_case": 30})],
